@@ -11,7 +11,7 @@ from ..runner import Leg, Res, libcall
 
 PROPERTY = 'C06'
 NEED_C = True
-RULE = ('Generated leg: collections of 1..7 series, one case in 8 with 8..20 series (lengths 1..5, equal/unequal, ndim 1..3; list of lists / arrays / '
+RULE = ('Generated leg: collections of 1..7 series, one case in 8 with 8..20 and one in 40 with 65..80 series (lengths 1..5, equal/unequal, ndim 1..3; list of lists / arrays / '
         'array.array, 2-D and 3-D arrays) x block (None, triangular, rectangular with explicit True/False flag, blocks '
         'selecting no pair) x compact/square/only_triu x a settings subset x {Python serial, C serial}. Oracle: the '
         'row-major list of selected (row, column) pairs written from the property text, each entry = reference DTW; '
@@ -45,6 +45,9 @@ def block_strategy(draw, n):
         return None
     rb = draw(st.integers(0, n - 1))
     re_ = draw(st.integers(rb + 1, n))
+    if n > 64 and draw(st.booleans()):
+        rb = draw(st.integers(0, n - 65))       # a block of more than 64 rows
+        re_ = draw(st.integers(rb + 65, n))
     cb = draw(st.integers(0, n - 1))
     ce = draw(st.integers(cb + 1, n))
     flag = draw(st.sampled_from(['absent', 'true', 'false']))
@@ -70,7 +73,15 @@ def _case(draw):
     eq = draw(st.booleans())
     L0 = draw(st.integers(1, 5))
     series = []
-    for _ in range(n):
+    huge = draw(st.integers(0, 39)) == 0
+    if huge:
+        # more rows than any fixed batch / chunk / bit-field size (65..80 series of one or two samples)
+        n = draw(st.integers(65, 80))
+        L0 = draw(st.integers(1, 2))
+        base = [draw(gen.series(L0, L0, 'L', ndim)) for _ in range(draw(st.integers(2, 6)))]
+        series = [[x[:] if ndim > 1 else x for x in base[draw(st.integers(0, len(base) - 1))]] for _ in range(n)]
+        eq = True
+    for _ in range(0 if huge else n):
         L = L0 if eq else draw(st.integers(1, 8))
         series.append(draw(gen.series(L, L, 'L', ndim)))
     if not eq and draw(st.integers(0, 2)) == 0:
